@@ -109,6 +109,12 @@ def thunks_table():
         'best-M-8047': lambda: athlib.wma_world_best('m', '8047'),
         'afactor-M66-60H': lambda: athlib.wma_athlon_age_factor('M', 66, '60H'),
         'afactor-F69-LJ': lambda: athlib.wma_athlon_age_factor('f', 69, 'LJ'),
+        'afactor-M50-100': lambda: athlib.wma_athlon_age_factor('M', 50, '100'),
+        'agrade-M50-LJ': lambda: athlib.wma_athlon_age_grade('M', 50, 'LJ', 5.5),
+        'agrade-F45-800': lambda: athlib.wma_athlon_age_grade('f', 45, '800', 150.0),
+        'abest-M-SP': lambda: athlib.aag.world_best('m', 'SP'),
+        'grade15-F40-LJ': lambda: athlib.wma_age_grade('f', 40, 'LJ', 5.5, year=2015),
+        'best15-M-5K': lambda: athlib.wma_world_best('m', '5K', year=2015),
         'sv-race-3': lambda: u.schema_valid('json/race.json'),
         'sv-athlete-4': lambda: u.schema_valid('json/athlete.json', validator=jsonschema.Draft4Validator),
         'sv-athlete-3': lambda: u.schema_valid('json/athlete.json'),
@@ -142,6 +148,17 @@ SCENARIOS = [
     ('grade-grade', ['grade-M50-5K', 'grade-F40-LJ'], 0),
     ('best-best', ['best-M-8047', 'best-F-MAR'], 0),
     ('afactor-diff', ['afactor-M66-60H', 'afactor-F69-LJ'], 0),
+    # every pair of DIFFERENT functions on each shared grader object (2023, 2015, combined events), different rows
+    ('factor-grade', ['factor-M50-100', 'grade-F40-LJ'], 0),
+    ('factor-best', ['factor-M50-100', 'best-F-MAR'], 0),
+    ('factor15-grade15', ['factor15-M60-HJ', 'grade15-F40-LJ'], 0),
+    ('factor15-best15', ['factor15-M60-HJ', 'best15-M-5K'], 0),
+    ('grade15-best15', ['grade15-F40-LJ', 'best15-M-5K'], 0),
+    ('afactor-agrade', ['afactor-M50-100', 'agrade-M50-LJ'], 0),
+    ('afactor-abest', ['afactor-M50-100', 'abest-M-SP'], 0),
+    ('agrade-agrade', ['agrade-M50-LJ', 'agrade-F45-800'], 0),
+    ('agrade-abest', ['agrade-F45-800', 'abest-M-SP'], 0),
+    ('score-age-agrade', ['score-M100-age', 'agrade-M50-LJ'], 0),
     ('sv-sv-limit', ['sv-race-3', 'sv-athlete-4'], 20),
     ('sv-sv-limit-19', ['sv-race-3', 'sv-athlete-3'], 19),
     ('va-va-limit', ['va-athlete', 'va-perf'], 20),
